@@ -321,6 +321,9 @@ def similarity_shift(expr, var):
         return expr, 1, 0
 
     expr2 = expr.replace(var * scale + shift, var)
+    if expr2.subs(var, var * scale + shift) != expr:
+        # e.g. t * u(t - 1): the bare factor t is not shifted
+        return expr, 1, 0
 
     return expr2, scale, shift
 
